@@ -93,6 +93,63 @@ fn main() {
             }
         }
     }
+    // the formula holds whatever sections the template carries: required signers, metadata, a datum, validity, a mint with a
+    // redeemer and a witnessed script, collateral, a reference input (nothing but the payload's size enters the fee)
+    const SECTIONS: &str = r#"
+party Sender;
+party Receiver;
+party Cosigner;
+type Note { n: Int, }
+tx signed(quantity: Int) {
+    input source { from: Sender, min_amount: Ada(quantity) + fees, }
+    output { to: Receiver, amount: Ada(quantity), }
+    output { to: Sender, amount: source - Ada(quantity) - fees, }
+    signers { Sender, Cosigner, }
+}
+tx one_signer(quantity: Int) {
+    input source { from: Sender, min_amount: Ada(quantity) + fees, }
+    output { to: Receiver, amount: Ada(quantity), }
+    output { to: Sender, amount: source - Ada(quantity) - fees, }
+    signers { Sender, }
+}
+tx everything(quantity: Int) {
+    input source { from: Sender, min_amount: Ada(quantity) + fees, }
+    collateral { from: Sender, min_amount: fees, }
+    reference dep { ref: 0x2626262626262626262626262626262626262626262626262626262626262626#0, }
+    mint { amount: AnyAsset(0x6b9c456aa650cb808a9ab54326e039d5235ed69f069c9664a8fe5b69, "ABC", 5), redeemer: (), }
+    output { to: Receiver, amount: Ada(quantity) + AnyAsset(0x6b9c456aa650cb808a9ab54326e039d5235ed69f069c9664a8fe5b69, "ABC", 5), datum: Note { n: quantity, }, }
+    output { to: Sender, amount: source - Ada(quantity) - fees, }
+    cardano::plutus_witness { version: 3, script: 0x5101010023259800a518a4d136564004ae69, }
+    metadata { 674: "note", }
+    validity { since_slot: 101684141, until_slot: 101694141, }
+    signers { Sender, Cosigner, Receiver, }
+}
+"#;
+    for name in ["signed", "one_signer", "everything"] {
+        for (a, b, extra) in [(44u64, 155381u64, None), (1, 2, Some(0)), (1000, 1_000_000, Some(7))] {
+            cases += 1;
+            let tx = lower(SECTIONS, name);
+            let args: BTreeMap<String, ArgValue> = BTreeMap::from([
+                ("quantity".to_string(), ArgValue::Int(quantity)),
+                ("sender".to_string(), ArgValue::Address(addr_bytes(SENDER))),
+                ("receiver".to_string(), ArgValue::Address(addr_bytes(RECEIVER))),
+                ("cosigner".to_string(), ArgValue::Address(addr_bytes(RECEIVER))),
+            ]);
+            let store = FixedStore(vec![lovelace_utxo(SENDER, 50_000_000_000, 0)]);
+            let mut c = compiler(a, b, extra);
+            vf_pipeline::begin_case(format!("template {name} with other sections"));
+            match pollster::block_on(tx3_resolver::resolve_tx(AnyTir::V1Beta0(tx), &args, &mut c, &store, 10)) {
+                Ok(x) => {
+                    let bf = body_fee(&x.payload);
+                    let lin = x.payload.len() as u64 * a + b + extra.unwrap_or(200_000);
+                    if bf != x.fee || x.fee != lin {
+                        println!("VERIF-WITNESS obligation=c05_resolver/resolve_tx#loop-ensures-at-exit fn=resolve_tx input=template {name} (quantity={quantity}) coefficient={a} constant={b} extra={extra:?} class=fee-depends-on-a-section observed=body.fee={bf},reported.fee={},len={} required=body.fee==reported.fee=={lin}", x.fee, x.payload.len());
+                    }
+                }
+                Err(e) => println!("VERIF-NOTE template {name} did not resolve: {}", e.to_string().chars().take(100).collect::<String>()),
+            }
+        }
+    }
     // C06: a reported parameter that gets no argument is refused with the error naming it - for every subset of the reported
     // parameters left out (the empty argument map included), with and without an unrelated extra argument
     let all: [(&str, ArgValue); 3] = [("quantity", ArgValue::Int(quantity)), ("sender", ArgValue::Address(addr_bytes(SENDER))), ("receiver", ArgValue::Address(addr_bytes(RECEIVER)))];
